@@ -114,6 +114,10 @@ def main(argv):
                 break
         for bad in rec["problems"]:
             c.violation("%s: %s" % (alg, bad["what"]), {"config": cfg, "detail": bad}, key=bad["key"])
+    # ---- sessions that learn their engine id (None / b"", first probe lost and retried): nothing of a session with a privacy key
+    # goes out in clear, salts are 8 octets and never repeat
+    from lib import v3sessions
+    v3sessions.run(c, v3exe, "C14", {"priv-flag", "clear", "salt"}, n_gets=5)
     return c.finish(
         rule="%d encrypted requests of mixed types (refresh probes incl. those of session entry, get, get_many, getnext, getbulk) over %d sessions (DES x2, AES), interleaved with receives, "
              "timeouts and a refresh, one key installation each: salts pairwise distinct and equal to first+i, priv flag set, 8 octets, DES salt "
@@ -125,6 +129,8 @@ def api_main(g, job):
     import random
     import apilib
     import scen
+    if "scenarios" in job:
+        return scen.api_main_generic(g, job)
     rng = random.Random(job["seed"])
     model = apilib.ModelProc(job["model_exe"])
     out = []
